@@ -79,6 +79,17 @@ CHECKS.update({
    note=GEN_NOTE + " Each edit is constructed to break exactly one rule; sites whose type differs between the versions of a pasted object are skipped."),
 })
 
+CHECKS.update({
+ "C09": dict(engine="gencheck", category="exploration", design="DESIGN.md §2 C09",
+   technique="differential against an exact extremal-size analysis by the independent model (enumeration of every assignment of the tested definer variables), on the shipped corpus and on proptest-chosen batches of valid mutants of it (insert/retype/reorder members, resize arrays, add optional / else / else-if branches, change conditions, upcasts)",
+   text="For every container and namespace the IR's minimum_size / maximum_size / constant_sized and the guard literal of the generated read_inner are compared with the true extremal lengths the model computes over the whole conditional structure; about 2,700 containers on the shipped tree and the same again on each mutant tree (6 trees x ~55 edits quick, 60 x ~75 thorough). A failing mutant batch is bisected to the single edit.",
+   note=GEN_NOTE + " Exact for enum conditions; flag conditions enumerate all subsets of the tested bits (capped at 16 bits, counted). Lengths of compressed payloads are only bounded from below and not judged."),
+ "C10": dict(engine="gencheck", category="exploration", design="DESIGN.md §2 C10",
+   technique="RFC 8927 validator written from the RFC + field-by-field differential of the emitted IR against the independent model's reading of the wowm text, on the shipped corpus and on proptest-chosen batches of valid mutants (15 edit kinds) where the IR must follow the edit",
+   text="The whole document is validated against the published JSON Typedef schema (additional properties rejected); object sets are compared per namespace in both directions; every object is compared fact by fact (about 400,000 facts on the shipped tree): kinds, opcodes, integer types, enumerators and values, member order and types, arrays, upcasts, constants, condition sets incl. != and else, optional blocks, tags, versions, comments, usage relation, positions, test vectors.",
+   note=GEN_NOTE + " Derived fields (prepared_objects, only_has_io_error, end positions) are not compared; sizes are C09's."),
+})
+
 PENDING = {}
 
 def main():
@@ -110,7 +121,7 @@ def main():
             {"name": "wowm_model", "path": "harness/model", "serves_properties": ["C01", "C02", "C03", "C04", "C05", "C06", "C14"], "kind_free_text": "independent reading of the wowm language: parser, resolver, tape-driven encoder/decoder with trace, exact size analysis"},
             {"name": "codec_harness", "path": "harness/codec_harness", "serves_properties": ["C01", "C02", "C03", "C04", "C05", "C06", "C14"], "kind_free_text": "Rust binary linking /repo's three libraries with all features; generic endpoints over the public opcode enums, typed expect_* helpers, scripted async transport, isolated worker processes"},
             {"name": "typed_harness", "path": "harness/typed_harness", "serves_properties": ["C11", "C12", "C13"], "kind_free_text": "Rust binary linking /repo's libraries; build script scans the generated sources for public enum / flag / update-mask types and emits adapters; expected behaviour from the wowm model and the published update-mask table"},
-            {"name": "gencheck", "path": "harness/gencheck", "serves_properties": ["C08", "C16"], "kind_free_text": "drives the real generator (built from /repo's working tree) on rsync'ed scratch trees: run histories, perturbations, fault injection into the wowm corpus"},
+            {"name": "gencheck", "path": "harness/gencheck", "serves_properties": ["C08", "C09", "C10", "C16"], "kind_free_text": "drives the real generator (built from /repo's working tree) on rsync'ed scratch trees: run histories, perturbations, fault injection into the wowm corpus"},
         ],
         "checks": checks,
         "notes": "All checks: property-based testing / fuzzing (generated-input search against an explicit oracle). ./check <ID> <tier> rebuilds the harness from /repo's working tree with cargo (offline) and runs it; VERIF_SEED selects the proptest seed. Exit 2 = infrastructure problem or inconclusive, never a violation. known_findings.txt lists recorded findings and repaired defects.",
